@@ -178,6 +178,59 @@ def variant_part(prop, tier, seed, ev, violations, known, known_hits):
     return problems
 
 
+EUML_CFGS = ['b', 'bc', 'b11', 'mf']
+
+
+def euml_machines(tier, seed):
+    """flat machines written once with functor rows and once as an eUML transition-table expression
+    (BOOST_MSM_EUML_DECLARE_TRANSITION_TABLE inside the same state_machine_def): curated M15 / M18 and generated ones"""
+    out = ['m15', 'm18', 'pgen:201', 'pgen:202']
+    if tier == 'thorough':
+        out += ['pgen:%d' % (2000 + (seed % 1000) * 20 + k) for k in range(10)]
+    return out
+
+
+def euml_part(prop, tier, seed, ev, violations, known, known_hits):
+    n = 60 if tier == 'quick' else 600
+    ms = euml_machines(tier, seed)
+    fh = {m: engine.Harness(m, EUML_CFGS) for m in ms}
+    eh = {m: engine.Harness(m, EUML_CFGS, variant='euml') for m in ms}
+    errs = engine.build_harnesses(list(fh.values()) + list(eh.values()))
+    if errs:
+        return [('euml build', e[-600:]) for e in errs[:2]]
+    pairs = 0
+    for m in ms:
+        for wi, kw in enumerate([dict(), dict(effects=0.25, enqueue=0.15), dict(fail=0.3)]):
+            scripts = checks.scripts_for(fh[m], seed + 5 * wi, n, kw)
+            ra = run.run_matrix(fh[m].bins, scripts)
+            rb = run.run_matrix(eh[m].bins, scripts)
+            for cfg in EUML_CFGS:
+                for i in range(len(scripts)):
+                    ev.evaluations += 1
+                    if ra[cfg][i].status != 'ok':
+                        continue
+                    a = [r.raw for r in ra[cfg][i].recs]
+                    b = [r.raw for r in rb[cfg][i].recs]
+                    if rb[cfg][i].status == 'ok' and a == b:
+                        pairs += 1
+                        if sum(1 for r in ra[cfg][i].recs if r.k == 'G') >= 2:
+                            ev.distinct.add(('euml-table', m, cfg, wi, i))
+                        continue
+                    j = diff.first_diff(a, b)
+                    exp = a[j] if j is not None and j < len(a) else 'END'
+                    got = (b[j] if j is not None and j < len(b) else 'END') if rb[cfg][i].status == 'ok' else rb[cfg][i].status
+                    sig = '%s|%s|%s' % (m, exp[:100], got[:100])
+                    k = engine.match_known(known, prop, build.FAMNAME[cfg], 'euml-frontend-differential', sig)
+                    if k:
+                        known_hits[k['id']] = known_hits.get(k['id'], 0) + 1
+                        continue
+                    rp = engine.write_replay(prop, {'kind': 'c14v', 'property': prop, 'machine': m, 'cfg': cfg, 'variant': 'euml',
+                                                    'script': scripts[i], 'rule': 'euml-frontend-differential', 'expected': exp, 'got': got})
+                    violations.append((rp, m, 'euml/%s' % cfg, 'euml-frontend-differential', exp, got))
+    ev.extra['euml_table_trace_pairs_equal'] = pairs
+    return []
+
+
 def run_c14(tier, seed):
     prop = 'C14'
     ev = engine.Evidence(prop, tier, seed)
@@ -186,7 +239,8 @@ def run_c14(tier, seed):
                'whose traces were compared across front-end families')
     ev.assumptions = ['front-end families compared: functor Row/Internal with none, ActionSequence_, And_/Or_/Not_ | basic member-function rows '
                       '(row, a_row, g_row, _row, irow family, internal<> family) | row2 family; state-local internal tables stay functor based; '
-                      'PlantUML machines: generated flat machines, see m-puml part; eUML is not covered (see DESIGN 6)',
+                      'PlantUML machines: curated M15 / M16 / M18 and generated flat machines (guards from the documented guard grammar, one group)',
+                      'eUML: the transition-table expression (BOOST_MSM_EUML_DECLARE_TRANSITION_TABLE with euml_state / euml_event / euml_action terminals, &&, ||, !, action sequences by comma, internal rows) on flat machines; the eUML state-machine and state declaration macros and the eUML action language are not covered',
                       'tokenizer documents follow the documented frame (@startuml ... state X{ ... } @enduml)']
     known = engine.load_known()
     violations, known_hits = [], {}
@@ -194,6 +248,7 @@ def run_c14(tier, seed):
     problems += variant_part(prop, tier, seed, ev, violations, known, known_hits)
     from . import gen_puml
     problems += gen_puml.puml_machine_part(prop, tier, seed, ev, violations, known, known_hits)
+    problems += euml_part(prop, tier, seed, ev, violations, known, known_hits)
     ev.extra['known_finding_hits'] = known_hits
     return checks2.report(prop, ev, violations, problems, known, known_hits, tier, 30, 60)
 
@@ -238,4 +293,6 @@ def setup():
     errs += engine.build_harnesses(hs)
     from . import gen_puml
     errs += gen_puml.setup()
+    ms = euml_machines('quick', 1)
+    errs += engine.build_harnesses([engine.Harness(m, EUML_CFGS) for m in ms] + [engine.Harness(m, EUML_CFGS, variant='euml') for m in ms])
     return errs
